@@ -2,12 +2,15 @@
 EXTENDS Stats, Json
 VARIABLES cfg, step
 Fields == <<"ds", "nreg", "name", "minmax", "threads", "rmode">>
-Dom(f) == CASE f = "ds" -> {1, 2, 3} [] f = "nreg" -> {1, 3, 40} [] f = "name" -> {"col4", "col5", "interval", "none", "default"}
+Dom(f) == CASE f = "ds" -> {1, 2, 3, 4} [] f = "nreg" -> {1, 3, 40} [] f = "name" -> {"col4", "col5", "interval", "none", "default"}
             [] f = "minmax" -> {0, 1} [] f = "threads" -> {1, 2, 3, 8, 16} [] f = "rmode" -> {"mix", "win"}
 Data(ds) == CASE ds = 1 -> << <<1, 2, 5, 3>>, <<1, 5, 6, 1>>, <<1, 9, 12, 2>>, <<2, 0, 4, 7>>, <<2, 6, 7, 1>> >>
               [] ds = 2 -> << <<1, 0, 1, 1>>, <<1, 3, 9, 4>>, <<2, 2, 3, 2>>, <<3, 1, 2, 5>>, <<3, 2, 14, 1>> >>
               \* ds 3: negative values (regions covering only negative values: the extrema must be negative too)
               [] ds = 3 -> << <<1, 2, 5, -3>>, <<1, 5, 6, -1>>, <<1, 9, 12, 2>>, <<2, 0, 4, -7>>, <<2, 6, 7, -1>> >>
+              \* ds 4: the second chromosome comes first in the file (written with input sort type START): ids are given by first
+              \* appearance, so the chromosome table is not in name order
+              [] ds = 4 -> << <<2, 0, 4, 7>>, <<2, 6, 7, 1>>, <<1, 2, 5, 3>>, <<1, 5, 6, 1>>, <<1, 9, 12, 2>> >>
 NChr(ds) == IF ds = 2 THEN 3 ELSE 2
 \* region i of a list: chromosome, start, end chosen by a fixed arithmetic rule so that regions lie
 \* inside, straddle, fall between and outside the data
